@@ -4,7 +4,7 @@ from hypothesis import strategies as st
 from ECAgent.Core import Agent, Environment, Model, ComponentNotFoundError
 from ECAgent.Environments import SpaceWorld
 from vf.engine import Violation, InvalidCase
-from vf.fixtures import CompA, CompB, CompC, CompD, check, expect_raises
+from vf.fixtures import CompA, CompB, CompC, CompD, check, expect_raises, sized_lists
 
 PROPERTY = "C20"
 BUDGET = {"quick": 2000, "thorough": 5000}
@@ -193,5 +193,5 @@ def strategy(tier):
     return st.fixed_dictionaries({
         "classes": st.lists(st.one_of(st.just(-1), st.just(-1), st.integers(0, 9)), min_size=2, max_size=7),
         "shared": st.integers(0, 3).map(lambda v: v == 0),
-        "ops": st.lists(ops, min_size=6, max_size=40),
+        "ops": st.one_of(st.lists(ops, min_size=1, max_size=40), sized_lists(ops, 6, 40), sized_lists(ops, 6, 40)),
     })
